@@ -158,12 +158,13 @@ static Res run_str(size_t limit, F &&f)
 static std::string exc_tag(const Res &r) { return r.runaway ? "runaway" : vf::outkind_name(r.o.kind); }
 
 // ---------------------------------------------------------------- split
-enum Form { F_CHAR, F_CSTR, F_STR, NFORMS };
-static const char *FORMN[NFORMS] = {"char", "const char*", "ST::string"};
+enum Form { F_CHAR, F_CSTR, F_STR, F_U8, NFORMS };
+static const char *FORMN[NFORMS] = {"char", "const char*", "ST::string", "const char8_t*"};
 
 static std::vector<ST::string> call_split(int form, const ST::string &s, char ch, const char *cz, const ST::string &ss, uint64_t max, bool ci)
 {
     ST::case_sensitivity_t cs = ci ? ST::case_insensitive : ST::case_sensitive;
+    if (form == F_U8) return s.split(reinterpret_cast<const char8_t *>(cz), (size_t)max, cs);
     return form == F_CHAR ? s.split(ch, (size_t)max, cs) : form == F_CSTR ? s.split(cz, (size_t)max, cs) : s.split(ss, (size_t)max, cs);
 }
 
@@ -191,7 +192,7 @@ static bool is_ascii(const std::string &s)
 static bool form_applies(int form, const std::string &sep, bool utf8_clean)
 {
     if (form == F_CHAR) return sep.size() == 1 && sep[0] >= 0x01 && (unsigned char)sep[0] <= 0x7F;  // documented contract of split(char)
-    if (form == F_CSTR) return sep.find('\0') == std::string::npos && (utf8_clean || is_ascii(sep));  // a C string cannot carry a NUL
+    if (form == F_CSTR || form == F_U8) return sep.find('\0') == std::string::npos && (utf8_clean || is_ascii(sep));  // a C string cannot carry a NUL
     return true;
 }
 
@@ -243,9 +244,10 @@ static void check_split(Ctx &c, const std::string &subj, const std::string &sep,
 }
 
 // ---------------------------------------------------------------- replace
-enum RForm { R_SS, R_CC, R_SC, R_CS, NRFORMS };
-static const unsigned ALL_RFORMS = 15;
-static const char *RFORMN[NRFORMS] = {"ST::string,ST::string", "const char*,const char*", "ST::string,const char*", "const char*,ST::string"};
+enum RForm { R_SS, R_CC, R_SC, R_CS, R_UU, R_SU, R_US, NRFORMS };
+static const unsigned ALL_RFORMS = 127;
+static const char *RFORMN[NRFORMS] = {"ST::string,ST::string", "const char*,const char*", "ST::string,const char*", "const char*,ST::string",
+                                      "const char8_t*,const char8_t*", "ST::string,const char8_t*", "const char8_t*,ST::string"};
 
 static ST::string call_replace(int form, const ST::string &s, const ST::string &fs, const char *fz, const ST::string &ts, const char *tz, bool ci)
 {
@@ -254,7 +256,10 @@ static ST::string call_replace(int form, const ST::string &s, const ST::string &
     case R_SS: return s.replace(fs, ts, cs);
     case R_CC: return s.replace(fz, tz, cs);
     case R_SC: return s.replace(fs, tz, cs);
-    default: return s.replace(fz, ts, cs);
+    case R_CS: return s.replace(fz, ts, cs);
+    case R_UU: return s.replace(reinterpret_cast<const char8_t *>(fz), reinterpret_cast<const char8_t *>(tz), cs);
+    case R_SU: return s.replace(fs, reinterpret_cast<const char8_t *>(tz), cs);
+    default: return s.replace(reinterpret_cast<const char8_t *>(fz), ts, cs);
     }
 }
 static std::string replace_verdict(const Res &r, const std::string &subj, const std::string &from, const std::string &to, size_t k, const std::string &want)
@@ -282,8 +287,8 @@ static void check_replace(Ctx &c, const std::string &subj, const std::string &fr
     bool ss_failed[2] = {false, false};
     for (int form = 0; form < NRFORMS; ++form) {  // R_SS first
         static_assert(R_SS == 0, "the forwarding target must be checked first");
-        if ((form == R_CC || form == R_CS) && !cstr_from_ok) continue;
-        if ((form == R_CC || form == R_SC) && !cstr_to_ok) continue;
+        if ((form == R_CC || form == R_CS || form == R_UU || form == R_US) && !cstr_from_ok) continue;
+        if ((form == R_CC || form == R_SC || form == R_UU || form == R_SU) && !cstr_to_ok) continue;
         if (!(forms >> form & 1)) continue;
         for (int ci = 0; ci < 2; ++ci) {
             const size_t k = ks[ci];
@@ -401,12 +406,12 @@ static void build(vf::Plan &plan, const vf::Opts &o)
     const std::string SA("abA,\0", 5);
     const std::string RA("ab,", 3);
     const uint64_t nto = vf::seq_count(RA.size(), 3);
-    const unsigned BOTH = 1u << R_SS | 1u << R_CC;
+    const unsigned BOTH = 1u << R_SS | 1u << R_CC | 1u << R_UU;
 
     // ---- split
     auto split_stage = [&](unsigned L, unsigned SEPL) {
         const uint64_t nsep = vf::seq_count(SA.size(), SEPL);
-        auto &st = plan.stage(strf("split:{a,b,A,',',NUL}^<=%u x sep^<=%u x 6 max_splits x 3 forms x cs/ci", L, SEPL),
+        auto &st = plan.stage(strf("split:{a,b,A,',',NUL}^<=%u x sep^<=%u x 6 max_splits x 4 forms x cs/ci", L, SEPL),
                               vf::seq_count(SA.size(), L) * nsep * NMAX,
                               [SA, L, SEPL, nsep](uint64_t idx, Ctx &c) {
                                   uint64_t max = MAXES[vf::take(idx, NMAX)];
